@@ -254,7 +254,7 @@ pub fn prefill(quick: bool) -> Vec<Scenario> {
             )
             .prefill(1, 1)
             .budgets(1, 0, 1, 2)
-            .cap(300_000),
+            .cap(3_000_000),
         );
     }
     v
